@@ -362,6 +362,58 @@ def check(ctx, only_h1: bool = False, h1_rule: str = "C13-H1") -> None:
                 if not ok:
                     ctx.finding("C13-H5", "SynCmd.cmd_benchmark.run:boundary", bf.loc(n), "benchmark compares the confidence with %s instead of >=" % type(n.ops[0]).__name__)
     ctx.require(n_cmp >= 1, "benchmark no longer compares entry['confidence'] with min_confidence")
+    rule_h9(ctx)
+    # H8: rows that are not MCS results are the same for every threshold - also in that they survive: the filter asserts an
+    # empty issue on the rows it demotes, which holds only if nobody writes an issue to a solved row (shared with C03-V8)
+    from . import c03
+
+    c03.rule_v8(ctx, pl, "C13-H8")
+
+
+def rule_h9(ctx) -> None:
+    """The threshold the rows are compared with is the threshold the caller gave.  Where the Balancer wraps the option
+    in a property, the setter stores its argument unchanged (validation that raises and `float(..)` are not changes);
+    rounding or clamping moves a threshold that equals an observed confidence across it."""
+    ctx.rule("C13-H9", "the confidence threshold is stored as given (no rounding / clamping in a property setter or in the constructor)", 1)
+    prog = ctx.prog
+    bcls = prog.cls("synrbl.balancing.Balancer")
+
+    def identity_of(f, e, pname, depth=0) -> bool:
+        if depth > 4:
+            return False
+        if isinstance(e, ast.Name):
+            if e.id == pname:
+                defs = assignments_to(f, pname)
+                return all(identity_of(f, v, pname, depth + 1) for _s, v, _i in defs) if defs else True
+            defs = assignments_to(f, e.id)
+            return bool(defs) and all(i is None and identity_of(f, v, pname, depth + 1) for _s, v, i in defs)
+        if isinstance(e, ast.Call) and isinstance(e.func, ast.Name) and e.func.id == "float" and len(e.args) == 1 and not e.keywords:
+            return _inner_identity(f, e.args[0], pname, depth)
+        return False
+
+    def _inner_identity(f, e, pname, depth):
+        # `value = float(value)`: the argument is the parameter itself (as bound before this statement)
+        return isinstance(e, ast.Name) and e.id == pname or identity_of(f, e, pname, depth + 1)
+
+    n = 0
+    for q, f in sorted(prog.functions.items()):
+        if f.cls is not bcls:
+            continue
+        decos = [unparse(d) for d in getattr(f.node, "decorator_list", [])]
+        is_setter = any(d.endswith("confidence_threshold.setter") for d in decos)
+        if not (is_setter or f.name == "__init__"):
+            continue
+        pname = "confidence_threshold" if f.name == "__init__" else (f.params[1] if len(f.params) > 1 else None)
+        if pname is None or pname not in f.params:
+            continue
+        for node in own_nodes(f.node):
+            if isinstance(node, ast.Assign) and len(node.targets) == 1 and isinstance(node.targets[0], ast.Attribute) and isinstance(node.targets[0].value, ast.Name) and node.targets[0].value.id == f.params[0] and "confidence_threshold" in node.targets[0].attr:
+                n += 1
+                ok = identity_of(f, node.value, pname)
+                ctx.instance("C13-H9", "%s stores %s" % (f.name, unparse(node)[:70]), f.loc(node), ok=ok)
+                if not ok:
+                    ctx.finding("C13-H9", "Balancer.%s:threshold-transformed" % f.name, f.loc(node), "the Balancer stores %s instead of the threshold it was given: rows are compared with (and the issue names) another threshold, so a row whose confidence equals the caller's threshold or its float neighbour is judged wrongly" % unparse(node.value)[:50])
+    ctx.require(n >= 1, "no store of the confidence threshold found in Balancer.__init__ / a property setter")
 
 
 def _vector_compare(f, flag: str, polarity: bool, conf_names):
